@@ -618,7 +618,7 @@ func verifC13Exec(op string) string {
 		verifC13Observe = "stale=- badref=-"
 		return "run=" + verifC13Join(verifC13Running(p))
 
-	case "reload":
+	case "reload", "reloadf":
 		p := verifC13P
 		if p == nil {
 			return "dead"
@@ -632,6 +632,22 @@ func verifC13Exec(op string) string {
 		}
 		if err := nc.Validate(nil); err != nil {
 			return "invalid"
+		}
+		if f[0] == "reloadf" {
+			// the file path: serialise the new configuration and let the real conf.Load parse it
+			// (JSON is YAML), exactly what Core.run does when the configuration file changes
+			byts, err := json.Marshal(nc)
+			if err != nil {
+				return "invalid"
+			}
+			fp := filepath.Join(verifC13Dir, "reload.yml")
+			if err := os.WriteFile(fp, byts, 0o644); err != nil {
+				return "invalid"
+			}
+			nc, _, err = conf.Load(fp, nil, nil)
+			if err != nil {
+				return "invalid"
+			}
 		}
 
 		// what changed, observed on the two configurations only
@@ -791,7 +807,11 @@ func verifC13Gen(r *verifutil.Rand, i int, thorough bool) []string {
 				ms = append(ms, m)
 			}
 		}
-		ops = append(ops, "reload "+strings.Join(ms, " "), "observe")
+		verb := "reload "
+		if r.Chance(1, 3) {
+			verb = "reloadf "
+		}
+		ops = append(ops, verb+strings.Join(ms, " "), "observe")
 	}
 	return ops
 }
@@ -799,7 +819,7 @@ func verifC13Gen(r *verifutil.Rand, i int, thorough bool) []string {
 func verifC13Class(op, impl string) string {
 	w := strings.Fields(op)
 	switch w[0] {
-	case "reload":
+	case "reload", "reloadf":
 		if !strings.HasPrefix(impl, "chg=") {
 			return "reload/" + impl
 		}
@@ -814,7 +834,7 @@ func verifC13Class(op, impl string) string {
 		if strings.Contains(impl, ":started") {
 			k += "+started"
 		}
-		return "reload" + n + k
+		return w[0] + n + k
 	case "observe":
 		if impl == "stale=- badref=-" {
 			return "observe/clean"
